@@ -189,3 +189,103 @@ func VerifC11CancelAnywhere() {
 		vstub.Assert(inLog(a, x), "C11 after a request cancelled at any step a later request makes every reachable entry visible")
 	}
 }
+
+// VerifC11Saturated: the replicator is SATURATED when the request is aborted -
+// one fetch slot, several hashes queued, so some worker of the request is still
+// waiting for a slot when the context ends - and which waiting worker gets the
+// slot (and which queued hash it takes) is a schedule decision: every schedule
+// with at most P preemptions.  A later uncancelled request for the same heads,
+// or for a newer head on top of them, must complete: everything reachable is
+// visible and nothing is left queued.
+func VerifC11Saturated() {
+	p := vstub.Param("P", 1)
+	n := vstub.Param("N", 3)
+	blocks := vstub.NewBlocks(nil)
+	prov := vstub.NewProvider()
+	w2 := vstub.NewIdentity("w2", prov)
+	w3 := vstub.NewIdentity("w3", prov)
+	env := vstubodb.NewEnv("a", 1, "db", blocks, nil)
+	opts := env.Options(false)
+	opts.AccessController = vstubodb.WriteAll()
+	opts.ReplicationConcurrency = 1
+	a := &BaseStore{}
+	if err := a.InitBaseStore(env.IPFS, env.Identity, env.Addr, opts); err != nil {
+		vstub.Fail("InitBaseStore failed")
+		return
+	}
+	var all []ipfslog.Entry
+	var l2, l3 *ipfslog.IPFSLog
+	var e2, e3 ipfslog.Entry
+	for k := 0; k < n-1; k++ {
+		l2, e2 = appendAs(env, l2, a.id, w2, []byte{'x', byte(k)})
+		if e2 == nil {
+			return
+		}
+		all = append(all, e2)
+	}
+	l3, e3 = appendAs(env, l3, a.id, w3, []byte{'y'})
+	if e3 == nil {
+		return
+	}
+	all = append(all, e3)
+	heads := []ipfslog.Entry{e2, e3}
+	if vstub.NdChoice("order", 2) == 1 {
+		heads = []ipfslog.Entry{e3, e2}
+	}
+	copies := func(hs []ipfslog.Entry) []ipfslog.Entry {
+		var out []ipfslog.Entry
+		for _, h := range hs {
+			out = append(out, h.Copy())
+		}
+		return out
+	}
+	ctx1, cancel1 := context.WithCancel(context.Background())
+	at := 1 + vstub.NdChoice("at", 2)
+	blocks.OnRead = func(k int, hash string) {
+		if k == at {
+			cancel1()
+		}
+	}
+	vstub.ExploreSchedules(p)
+	_ = a.Sync(ctx1, copies(heads))
+	vstub.WaitIdle()
+	vstub.ExploreSchedules(0)
+	cancel1()
+	vstub.WaitIdle()
+	blocks.OnRead = nil
+	vstub.Cover("aborted-while-saturated")
+	for _, e := range a.OpLog().Values().Slice() {
+		for _, nx := range e.GetNext() {
+			if _, ok := a.OpLog().Get(nx); !ok {
+				vstub.Cover("partial-ancestry")
+				if vstub.KnownFinding("C11-partial-ancestry") {
+					return
+				}
+			}
+		}
+	}
+	// the later request: the same heads, or a newer head written on top of both branches
+	second := heads
+	if vstub.NdChoice("later", 2) == 1 {
+		if _, err := l2.Join(l3, -1); err != nil {
+			vstub.Fail("C11 harness: join failed")
+			return
+		}
+		_, top := appendAs(env, l2, a.id, w2, []byte("top"))
+		if top == nil {
+			return
+		}
+		all = append(all, top)
+		second = []ipfslog.Entry{top}
+		vstub.Cover("newer-head")
+	}
+	if err := a.Sync(context.Background(), copies(second)); err != nil {
+		vstub.Fail("C11 later request returned an error")
+	}
+	vstub.WaitIdle()
+	vstub.Cover("retried")
+	for _, e := range all {
+		vstub.Assert(inLog(a, e), "C11 after a request aborted while the replicator was saturated a later request makes every reachable entry visible")
+	}
+	vstub.Assert(len(a.Replicator().GetQueue()) == 0, "C11 nothing is left queued once the later request completed")
+}
